@@ -88,6 +88,12 @@ def run(env, tier, seed, broken=None):
                 cases.append(c)
                 if sf:
                     c['stdin_file'] = True
+    # texts whose LAST character is where the front end has to decide (a point after digits, a star inside an open comment, an
+    # open string, a lone operator ...), with and without a final newline, after zero / one valid statement
+    for tail in ['1.', '2 + 1.', 'x = 1.', '\u09e7.', '1.5.', 'a.', '"s', '"', '/* note *', '/* note', '/*', '/', '*', '1 /', '1 *', '@', '1 +', '(1', '{', '[1,', '1..', '!', '-', '=', '<', '&', '|', '1 &', '&&', '//', '// c', '/* c */', 'a', '1', '"s"', ';']:
+        for pre in ['', '%s "s";\n' % PRINT]:
+            for end in ['', '\n', ' ', '\r\n']:
+                cases.append({'id': 'p%d' % n, 'src': pre + ('%s ' % PRINT if tail[0] not in '{/@;' and not tail.startswith('x =') else '') + tail + end, 'stdin': 'a\n', 'klass': 'tail'}); n += 1
     # runtime errors at sampled positions of C06's matrix
     for _ in range(150 if tier == 'quick' else 3000):
         fexp, kind = rng.choice(FAULTS)
